@@ -6,7 +6,13 @@ VARIABLES f, as, sep
 \* how the list is laid out on the item: adjacent attributes, or a foreign attribute before, between and after them
 Seps == {"adjacent", "doc", "allow"}
 
-Init == f \in Families /\ as = <<>> /\ sep \in Seps
+\* lists longer than MaxAttrs: the three INDEPENDENT kinds of one item in every order (a merge that is right for every pair can
+\* still lose the first of three)
+Perms3(a, b, c) == {<<a, b, c>>, <<a, c, b>>, <<b, a, c>>, <<b, c, a>>, <<c, a, b>>, <<c, b, a>>}
+Triples(fam) == CASE fam = "fmt_enum" -> Perms3("rename_snake", "lit_wrap", "bound_u8") \cup Perms3("rename_kebab", "lit", "bound_u8")
+                  [] fam = "fmt_container" -> Perms3("lit", "bound_T", "bound_U")
+                  [] OTHER -> {}
+Init == f \in Families /\ as \in {<<>>} \cup Triples(f) /\ sep \in Seps
 Add == Len(as) < MaxAttrs /\ \E a \in Atoms(f) : as' = Append(as, a) /\ UNCHANGED <<f, sep>>
 Next == Add
 Spec == Init /\ [][Next]_<<f, as, sep>>
